@@ -188,6 +188,8 @@ pub struct Shadow {
     pub rc_origin: BTreeMap<usize, &'static str>,
     /// blocks of filler objects created by destructor actions
     pub untracked: std::collections::BTreeSet<usize>,
+    /// global epoch at which the disposal pass running on each thread started
+    pub disposal_started_at: Vec<u64>,
     /// C04 only: do not end the case at an O-own trip (see check_liveness)
     pub tolerate_own: bool,
     pub compromised: std::collections::BTreeSet<usize>,
@@ -220,6 +222,7 @@ pub fn init(shared: &'static Shared, sequential: bool) {
         sequential,
         rc_origin: BTreeMap::new(),
         untracked: std::collections::BTreeSet::new(),
+        disposal_started_at: vec![0; 16],
         tolerate_own: false,
         compromised: std::collections::BTreeSet::new(),
     });
@@ -567,6 +570,22 @@ fn on_event(kind: u32, addr: usize, aux: usize) {
                 s.objs[x].marked = true;
             }
             ev::DISPOSE => {
+                // how far the global epoch moves while one disposal pass (a root and everything
+                // it reclaims recursively) is running on a thread: more than one epoch is only
+                // possible because the pass re-pins the thread periodically
+                let t = crate::sched::tid();
+                let now = circ::verif::global_epoch() as u64;
+                if t < s.disposal_started_at.len() {
+                    if aux == 0 {
+                        s.disposal_started_at[t] = now;
+                    } else {
+                        let d = now.saturating_sub(s.disposal_started_at[t]);
+                        let e = s.c.entry("max_epochs_elapsed_within_one_disposal_pass").or_insert(0);
+                        if d > *e {
+                            *e = d;
+                        }
+                    }
+                }
                 s.objs[x].dispose_depth = Some(aux);
                 s.log(format!("t{}:dispose(obj{},d{})", tname(), x, aux));
                 if aux > 0 {
